@@ -24,6 +24,8 @@ pub enum LoadError {
     InvalidIncludeGlob(#[from] glob::PatternError),
     #[error("failed to match glob pattern")]
     GlobFailure(#[from] glob::GlobError),
+    #[error("file {0} includes itself, directly or through other files")]
+    IncludeCycle(PathBuf),
 }
 
 /// Loader is an object to keep loading a given file and may recusrively load them as `repr::LedgerEntry`,
@@ -76,13 +78,15 @@ impl<F: FileSystem> Loader<F> {
         Deco: syntax::decoration::Decoration,
     {
         let popts = parse::ParseOptions::default().with_error_style(self.error_style.clone());
-        self.load_impl(&popts, &self.source, &mut callback)
+        self.load_impl(&popts, &self.source, &mut Vec::new(), &mut callback)
     }
 
     fn load_impl<T, E, Deco>(
         &self,
         parse_options: &parse::ParseOptions,
         path: &Path,
+        // canonical paths of the files being loaded, from the root to the current one.
+        loading: &mut Vec<PathBuf>,
         callback: &mut T,
     ) -> Result<(), E>
     where
@@ -91,10 +95,14 @@ impl<F: FileSystem> Loader<F> {
         Deco: syntax::decoration::Decoration,
     {
         let path: Cow<'_, Path> = self.filesystem.canonicalize_path(path);
+        if loading.iter().any(|x| x.as_path() == path.as_ref()) {
+            return Err(LoadError::IncludeCycle(path.into_owned()).into());
+        }
         let content = self
             .filesystem
             .file_content_utf8(&path)
             .map_err(|err| LoadError::IO(err, path.clone().into_owned()))?;
+        loading.push(path.clone().into_owned());
         for parsed in parse::parse_ledger(parse_options, &content) {
             let (ctx, entry) =
                 parsed.map_err(|e| LoadError::Parse(e, path.clone().into_owned()))?;
@@ -124,13 +132,14 @@ impl<F: FileSystem> Loader<F> {
                     }
                     paths.sort_unstable();
                     for path in &paths {
-                        self.load_impl(parse_options, path, callback)?;
+                        self.load_impl(parse_options, path, loading, callback)?;
                     }
                     Ok(())
                 }
                 _ => callback(&path, &ctx, &entry),
             }?;
         }
+        loading.pop();
         Ok(())
     }
 }
@@ -435,6 +444,50 @@ mod tests {
             ),
             _ => panic!("unexpected error: {:?}", got_err),
         }
+    }
+
+    #[test]
+    fn load_include_cycle_fails() {
+        let fake = hashmap! {
+            PathBuf::from("/path/to/root.ledger") => indoc! {"
+                include sub/child.ledger
+            "}.as_bytes().to_vec(),
+            PathBuf::from("/path/to/sub/child.ledger") => indoc! {"
+                include ../root.ledger
+            "}.as_bytes().to_vec(),
+        };
+
+        let got_err = parse_into_vec(Loader::new(
+            PathBuf::from("/path/to/root.ledger"),
+            FakeFileSystem::from(fake),
+        ))
+        .unwrap_err();
+
+        match got_err {
+            LoadError::IncludeCycle(p) => assert_eq!(p, PathBuf::from("/path/to/root.ledger")),
+            _ => panic!("unexpected error: {:?}", got_err),
+        }
+    }
+
+    #[test]
+    fn load_same_file_included_twice() {
+        let fake = hashmap! {
+            PathBuf::from("/path/to/root.ledger") => indoc! {"
+                include child.ledger
+                include child.ledger
+            "}.as_bytes().to_vec(),
+            PathBuf::from("/path/to/child.ledger") => indoc! {"
+                ; foo
+            "}.as_bytes().to_vec(),
+        };
+
+        let got = parse_into_vec(Loader::new(
+            PathBuf::from("/path/to/root.ledger"),
+            FakeFileSystem::from(fake),
+        ))
+        .expect("including a file twice is not a cycle");
+
+        assert_eq!(got.len(), 2);
     }
 
     #[test]
